@@ -20,7 +20,8 @@ for i in ids:
     src = open(os.path.join(HERE, "harness", i.lower() + ".py")).read()
     dm = re.search(r"DRIVERS\s*=\s*\[(.*?)\]", src)
     drivers = [x.strip().strip('"').strip("'") for x in dm.group(1).split(",") if x.strip()] if dm else [i]
-    for line in [f"import IrisVerif.Props.{i}"] + [f"import IrisVerif.Driver.{d}" for d in drivers]:
+    # drivers each define `main`, so they cannot be imported together: they are separate targets of setup_cmd
+    for line in [f"import IrisVerif.Props.{i}"]:
         if line not in r:
             r += line + "\n"
 open(root, "w").write(r)
